@@ -10,7 +10,7 @@ func init() {
 		MinEvals: 100000,
 		Rule: "case = one block on a cluster layout: services (read-only flag) x mounts (device id blank/unique/shared across services, read-only flag, replication 1-3, storage classes), " +
 			"which devices hold a replica and its mtime (old distinct / old colliding / MinMtime-1ns / MinMtime / new), and the referencing collections (classes, replication 0-4, possibly a class no mount offers); " +
-			"layouts of 1-4 services x 1-2 mounts are walked per shape in one fixed cyclic order (stride coprime to the sub-space size) from a seed-chosen start, layouts up to 16 services x 3 mounts are sampled; " +
+			"layouts of 1-4 services x 1-2 mounts are walked per shape in one fixed cyclic order (stride coprime to the sub-space size) from a seed-chosen start, layouts up to 16 services x 3 mounts are sampled (general mix, plus a one-class family built around devices mounted on several services); " +
 			"the real cleanupMounts, AddReplicas/IncreaseDesired, setupLookupTables, balanceBlock run on it and the marshalled trash/pull lists are judged (B1-B6) against a physical-device model of the case description; " +
 			"non-trivial = some device holds a replica or some class has desired>0; distinct = distinct (services, mounts, shared devices holding a replica, replica devices, read-only view of a replica, classes desired, #trash, #pull, lost, under-replicated) tuples",
 		Assume: []string{
